@@ -258,7 +258,15 @@ namespace detail
 	{
 		GLM_STATIC_ASSERT(std::numeric_limits<T>::is_integer, "'bitfieldExtract' only accept integer inputs");
 
-		return (Value >> static_cast<T>(Offset)) & static_cast<T>(detail::mask(Bits));
+		if(Bits <= 0)
+			return vec<L, T, Q>(static_cast<T>(0));
+
+		// Move the field to the top of the word, then shift it back down: the right shift
+		// sign-extends for signed types and zero-extends for unsigned types, as GLSL specifies.
+		typedef typename detail::make_unsigned<T>::type U;
+		int const Width = static_cast<int>(sizeof(T) * 8);
+		vec<L, U, Q> const Top(vec<L, U, Q>(Value) << static_cast<U>(Width - Offset - Bits));
+		return vec<L, T, Q>(Top) >> static_cast<T>(Width - Bits);
 	}
 
 	// bitfieldInsert
